@@ -44,9 +44,12 @@ theorem nef_cRead (n : Nat) : NoEarlyF (cRead n) := nef_of_reqs_eq (by
   intro k k' h; unfold cRead at h; split at h <;> try contradiction
   split at h <;> try contradiction
   simp only [Option.some.injEq] at h; subst h; rfl)
-theorem nef_cReadErr (b f : Bool) : NoEarlyF (cReadErr b f) := nef_of_reqs_eq (by
+theorem nef_cReadErr (p b f : Bool) : NoEarlyF (cReadErr p b f) := nef_of_reqs_eq (by
   intro k k' h; unfold cReadErr at h; split at h <;> try contradiction
   split at h <;> (simp only [Option.some.injEq] at h; subst h; rfl))
+theorem nef_cDrainTick : NoEarlyF cDrainTick := nef_of_reqs_eq (by
+  intro k k' h; unfold cDrainTick at h; split at h <;> try contradiction
+  simp only [Option.some.injEq] at h; subst h; rfl)
 theorem nef_cAge : NoEarlyF cAge := nef_of_reqs_eq (by
   intro k k' h; unfold cAge at h; simp only [Option.some.injEq] at h; subst h; rfl)
 theorem nef_cDrainClose : NoEarlyF cDrainClose := nef_of_reqs_eq (by
@@ -154,7 +157,7 @@ theorem noearly_step {cfg : Cfg} (he : cfg.decEarly = false) {s s' : State} (a :
   | register c => exact noearly_updConn nef_cRegister hn h
   | stamp c => exact noearly_updConn nef_cStamp hn h
   | read c n => exact noearly_updConn (nef_cRead n) hn h
-  | readErr c f => exact noearly_updConn (nef_cReadErr _ f) hn h
+  | readErr c f => exact noearly_updConn (nef_cReadErr _ _ f) hn h
   | age c => exact noearly_updConn nef_cAge hn h
   | dispatch c => exact noearly_updConn (nef_cDispatch _) hn h
   | enqueue c =>
@@ -206,6 +209,11 @@ theorem noearly_step {cfg : Cfg} (he : cfg.decEarly = false) {s s' : State} (a :
   | write c i => exact noearly_updConn (nef_cWrite i) hn h
   | skip c i => exact noearly_updConn (nef_cSkip _ i) hn h
   | dec c i => exact noearly_updConn (nef_cDec i) hn h
+  | drainTick c =>
+    simp only [step] at h
+    split at h <;> try contradiction
+    split at h <;> try contradiction
+    exact noearly_updConn nef_cDrainTick hn h
   | drainClose c => exact noearly_updConn nef_cDrainClose hn h
   | shutdownCall =>
     simp only [step] at h
